@@ -165,3 +165,21 @@ def run(ctx, R):
     R.ob("C16:shared-formatter:printer", ff in cg.reach(pn), "HCPrinter::print_number must reach fmt_float", F.where(pn[0]))
     ffh = F.hir(ff)
     R.ob("C16:fmt_float:shortest-roundtrip", any("ryu::" in r for _, r, _ in hir_calls(ffh["body"])), "fmt_float must format through ryu (shortest representation that reads back to the same double)", F.where(ff))
+    # ryu prints "1e16" for a float with no fractional digits in scientific notation; a Prolog float needs "1.0e16". Whether
+    # ".0" must be inserted depends on whether the MANTISSA contains a '.', not on its length or on the position of 'e'
+    # (the mantissa may carry a sign): the inserting branch must be guarded by a search for '.' in the text
+    ins = []
+    for n in walk(ffh["body"]):
+        if n["k"] == "If":
+            has_dot_zero = any(x["k"] == "Lit" and x.get("lit", {}).get("str") == ".0" for x in walk(n["then"]))
+            nested = any(x is not n and x["k"] == "If" and any(y["k"] == "Lit" and y.get("lit", {}).get("str") == ".0" for y in walk(x["then"])) for x in walk(n["then"]))
+            if has_dot_zero and not nested:
+                searches_dot = any(x["k"] == "MethodCall" and x["name"] in ("contains", "find", "rfind", "position", "any", "split_once", "starts_with", "ends_with")
+                                   and any(y["k"] == "Lit" and (y.get("lit", {}).get("char") == "." or y.get("lit", {}).get("str") == ".") for y in walk(x.get("args", [])))
+                                   for x in walk(n["cond"]))
+                ins.append(searches_dot)
+    if not ins:
+        raise AnchorLost("fmt_float: the branch that inserts \".0\" before the exponent")
+    R.ob("C16:fmt_float:dot-zero-inserted-iff-mantissa-has-no-dot", all(ins),
+         "fmt_float inserts \".0\" before the exponent under a condition that does not look for a '.' in the mantissa: a test on the position of 'e' forgets the sign, "
+         "so -1e16 is written for -1.0e16 — text that does not read back as a number", F.where(ff))
